@@ -258,6 +258,166 @@ class WildStr(CharStr):
         return CharStr.sym_method(self, I, name, args, kw)
 
 
+class Crit:
+    """a criterion built from a column: (operator, column, value)"""
+
+    def __init__(self, op, col, val):
+        self.op, self.col, self.val = op, col, val
+
+    def __repr__(self):
+        return f"<{self.col} {self.op} {self.val!r}>"
+
+
+class ColV:
+    def __init__(self, name):
+        self.name = name
+
+    def sym_eq(self, I, other):
+        return Crit("==", self.name, other)
+
+    def sym_cmp(self, I, op, other, refl):
+        nm = {"GtE": ">=", "LtE": "<=", "Gt": ">", "Lt": "<"}[type(op).__name__]
+        if refl:
+            nm = {">=": "<=", "<=": ">=", ">": "<", "<": ">"}[nm]
+        return Crit(nm, self.name, other)
+
+    def sym_method(self, I, name, args, kw):
+        if name == "in_":
+            return Crit("in", self.name, args[0])
+        return NotImplemented
+
+
+class InstanceV:
+    def sym_getattr(self, I, name):
+        return ColV(name)
+
+
+class Part:
+    """one side of a range key: a non-empty text whose characters are not looked at"""
+    ext_class = "str"
+
+    def __init__(self, name):
+        self.name = name
+
+    def truth(self, I):
+        return True
+
+    def __repr__(self):
+        return f"<{self.name}>"
+
+
+class RangeKey:
+    ext_class = "str"
+
+    def __init__(self, parts):
+        self.parts = parts
+
+    def truth(self, I):
+        return True
+
+    def sym_method(self, I, name, args, kw):
+        if name == "split" and args == ["-"] or (name == "split" and tuple(args) == ("-",)):
+            return list(self.parts)
+        return NotImplemented
+
+
+class SearchCriteriaTask(Task):
+    """_search_single_value, _search_uid_list, _search_universal and _search_range on their real bodies: which criterion each adds
+    for the key it is given, on which column, and that it only ever RESTRICTS the query it was handed (a fresh query over all
+    instances when none was handed in).  What the criteria mean is the SQL engine's contract (assumed, EngineSemanticsTask)."""
+    shard = False
+
+    def __init__(self, which):
+        self.which = which
+        self.fn = f"{DB}:_search_{which}"
+        self.name = f"_search_{which}/criteria"
+        self.functions = [self.fn]
+
+    def config(self, repo):
+        c = Config()
+        c.ob_prefix = "C29/"
+        c.ext_models["str"] = lambda I, a, k: ("str-of", a[0])
+
+        def env_call(I, env, method, args, kw):
+            if env.path == "session" and method == "query":
+                I.trace.append(Ev("session.query", tuple(args)))
+                return Env("query:all")
+            if env.path.startswith("query:") and method == "filter":
+                I.trace.append(Ev("filter", (env.path,) + tuple(args)))
+                return Env(env.path + "+filter")
+            return NotImplemented
+        c.env_call = env_call
+        c.module_consts[(DB, "Instance")] = lambda I: I.ghost["Instance"]
+        if self.which != "universal":
+            c.summaries[f"{DB}:_search_universal"] = lambda I, a, k: (I.trace.append(Ev("universal", (a[2] if len(a) > 2 else k.get("query"),))), Env("query:universal"))[1]
+        return c
+
+    def body(self, I):
+        P = f"C29/{self.fn}"
+        g = I.ghost
+        g["Instance"] = InstanceV()
+        ns = I.module_ns(I.repo.module(DB))
+        kws = sorted(ns["_TRANSLATION"])
+        kw = kws[I.choose(len(kws), "keyword")] if self.which == "single_value" else {"range": "StudyDate", "uid_list": "SOPInstanceUID"}.get(self.which, kws[0])
+        col = ns["_TRANSLATION"][kw]
+        given = I.choose(2, "an existing query is handed in") == 1
+        q0 = Env("query:given") if given else None
+        if given:
+            q0.truth = True
+        vr, vm, value, want = "LO", 1, Part("value"), None
+        if self.which == "single_value":
+            vr = ["LO", "PN"][I.choose(2, "VR")]
+            want = [("==", col, ("str-of", value) if vr == "PN" else value)]
+        elif self.which == "universal":
+            value, want = "", []
+        elif self.which == "uid_list":
+            k = I.choose(3, "number of UIDs")
+            if k == 0:
+                value, vm, want = [], 0, "universal"
+            elif k == 1:
+                value, vm = Part("uid"), 1
+                want = [("==", col, value)]
+            else:
+                value, vm = [Part("uid1"), Part("uid2")], 2
+                want = [("in", col, value)]
+        else:
+            shape = I.choose(5, "shape of the range key")
+            a, b = Part("from"), Part("to")
+            parts = [[a, b], [a, ""], ["", b], ["", ""], [a, b, Part("extra")]][shape]
+            value = RangeKey(parts)
+            vr = "DA"
+            want = [[(">=", col, a), ("<=", col, b)], [(">=", col, a)], [("<=", col, b)], "ValueError", "ValueError"][shape]
+
+        class E:
+            def sym_getattr(self, I_, name):
+                return {"keyword": kw, "VR": vr, "value": value, "VM": vm}.get(name, NotImplemented)
+        kind, out = I.run_function(I.repo.func(self.fn), [E(), Env("session")] + ([q0] if given else []))
+        if want == "ValueError":
+            I.ob(f"{P}/a-key-that-is-not-a-range-is-refused-with-ValueError", kind == "raise" and out.cls_name == "ValueError", detail=f"{kind}:{out!r}")
+            I.ob(f"{P}/a-refused-key-adds-no-criterion", not [e for e in I.trace if e.name == "filter"])
+            return
+        I.ob(f"{P}/no-exception", kind == "return", detail=f"{kind}:{out!r}")
+        if kind != "return":
+            return
+        filters = [e for e in I.trace if e.name == "filter"]
+        fresh = [e for e in I.trace if e.name == "session.query"]
+        base = "query:given" if given else "query:all"
+        if want == "universal":
+            u = [e for e in I.trace if e.name == "universal"]
+            I.ob(f"{P}/an-empty-UID-list-is-universal-matching-on-the-query-handed-in", len(u) == 1 and u[0].args[0] is q0 and not filters
+                 and isinstance(out, Env) and out.path == "query:universal", detail=repr(I.trace[-3:]))
+            return
+        I.ob(f"{P}/searches-all-instances-only-when-no-query-was-handed-in",
+             (len(fresh) == 0) if given else (len(fresh) == 1 and len(fresh[0].args) == 1 and fresh[0].args[0] is g["Instance"]), detail=repr(fresh))
+        crits = [(c.e if isinstance(c, SV) and isinstance(c.e, Crit) else c) for e in filters for c in e.args[1:]]    # the engine boxes comparison results
+        got = [(c.op, c.col, c.val) if isinstance(c, Crit) else c for c in crits]
+        same = len(got) == len(want) and all(isinstance(x, tuple) and x[0] == y[0] and x[1] == y[1] and (x[2] is y[2] or x[2] == y[2]) for x, y in zip(got, want))
+        I.ob(f"{P}/adds-exactly-the-criteria-of-its-kind-of-matching-on-the-key's-column", same, detail=f"got {got!r}, want {want!r}")
+        I.ob(f"{P}/the-result-is-the-query-it-was-handed-restricted-by-those-criteria-and-nothing-else",
+             isinstance(out, Env) and out.path == base + ("+filter" if want else "") and len(filters) == (1 if want else 0)
+             and all(e.args[0] == base for e in filters), detail=f"{getattr(out, 'path', out)!r} {[(e.args[0]) for e in filters]}")
+
+
 class EngineSemanticsTask(FiniteTask):
     """what the constructed criteria mean under the ASSUMED SQLite contract, read off the AST of the query construction"""
     name = "frame/what-the-SQL-criteria-mean"
@@ -276,7 +436,8 @@ class EngineSemanticsTask(FiniteTask):
 
 
 def tasks(tier):
-    return [CheckIdentifierTask(), BuildQueryTask(), WildcardTask(), EngineSemanticsTask()]
+    return [CheckIdentifierTask(), BuildQueryTask(), WildcardTask(), EngineSemanticsTask()] + \
+        [SearchCriteriaTask(w) for w in ("single_value", "universal", "uid_list", "range")]
 
 
 def replay(rec):
